@@ -28,7 +28,7 @@ type C02Cell struct {
 }
 
 var c02Contexts = []string{"body", "action", "inv", "custom", "customretry", "cleanup", "ccleanup", "go"}
-var c02Positions = []string{"first", "later", "last", "afterskips", "step", "replayonce"}
+var c02Positions = []string{"first", "later", "last", "afterskips", "step", "replayonce", "late"}
 
 type c02 struct{}
 
@@ -62,6 +62,9 @@ func buildCell(cell *C02Cell, lastVal int64) (*Prog, CheckCfg) {
 	case "step":
 		cond = &Cond{Draw: -1, Op: "mod", M: 5, C: 2} // the latest draw (the action's own)
 		cfg.Checks = 100
+	case "late":
+		cond = &Cond{Draw: 0, Op: "mod", M: 3, C: 1}
+		cfg.Checks = 40
 	case "replayonce":
 		// the test case comes from a fail file and falsifies the property on its first execution only (the
 		// reproduction run passes): still a falsification
@@ -118,6 +121,10 @@ func buildCell(cell *C02Cell, lastVal int64) (*Prog, CheckCfg) {
 			cb.Body = append(cb.Body, &Stmt{Op: "skip", Kind: "Skip"})
 		}
 	case "go":
+		if cell.Position == "late" {
+			p.Body = append(p.Body, guarded([]*Stmt{{Op: "golate", Body: sig[:1]}}))
+			break
+		}
 		p.Body = append(p.Body, guarded([]*Stmt{{Op: "go", Body: sig[:1]}}))
 		if cell.ThenSkip {
 			p.Body = append(p.Body, guarded([]*Stmt{{Op: "skip", Kind: "Skip"}}))
@@ -140,6 +147,10 @@ func buildCell(cell *C02Cell, lastVal int64) (*Prog, CheckCfg) {
 }
 
 func cellValidPos(kind, context, position string, thenSkip bool) bool {
+	if position == "late" {
+		// a goroutine started by one test case signals on that test case's T while a later test case is running
+		return context == "go" && sigClass(kind) == "nonfatal" && !thenSkip
+	}
 	if position == "replayonce" {
 		return (context == "body" || context == "cleanup" || context == "action") && !thenSkip
 	}
